@@ -10,6 +10,7 @@ import (
 	"sort"
 	"strconv"
 	"strings"
+	"unicode/utf8"
 )
 
 // Node represents a node in the template parse tree
@@ -417,7 +418,7 @@ func (n *ForNode) renderForLoop(w io.Writer, ctx *RenderContext, seq interface{}
 	case reflect.Map:
 		length = val.Len()
 	case reflect.String:
-		length = val.Len()
+		length = utf8.RuneCountInString(val.String())
 	default:
 		// For other types, try to convert to an interface slice
 		// to support custom iterables
@@ -450,6 +451,17 @@ func (n *ForNode) renderForLoop(w io.Writer, ctx *RenderContext, seq interface{}
 
 	// Update loop.length
 	loopVars["loop"].(map[string]interface{})["length"] = length
+
+	// The loop variables shadow outer variables only while the loop runs: an
+	// enclosing loop gets its own `loop` back, and nothing leaks past endfor
+	restoreLoop := loopCtx.shadowVariable("loop")
+	defer restoreLoop()
+	restoreValue := loopCtx.shadowVariable(n.valueVar)
+	defer restoreValue()
+	if n.keyVar != "" {
+		restoreKey := loopCtx.shadowVariable(n.keyVar)
+		defer restoreKey()
+	}
 
 	// Iterate based on the type
 	switch val.Kind() {
@@ -528,7 +540,12 @@ func (n *ForNode) renderForLoop(w io.Writer, ctx *RenderContext, seq interface{}
 		}
 
 	case reflect.String:
-		for i, char := range val.String() {
+		// Elements of a string are its characters: number them by position,
+		// not by byte offset
+		i := -1
+		for _, char := range val.String() {
+			i++
+
 			// Set the loop variables
 			loopVars["loop"].(map[string]interface{})["index"] = i + 1
 			loopVars["loop"].(map[string]interface{})["index0"] = i
